@@ -81,7 +81,13 @@ func (q rangeQuery) String() string {
 }
 
 func (q rangeQuery) CacheKey() uint64 {
-	return hash(q.prom.unsafeURI, q.Endpoint(), q.expr, q.r.Start.Format(time.RFC3339), q.r.End.Round(q.r.Step).Format(time.RFC3339), output.HumanizeDuration(q.r.Step))
+	// The response depends on the end time only through the last evaluated grid point (start + k*step <= end),
+	// rounding the end to the step would make two queries that differ by that grid point share one cache entry.
+	last := q.r.End
+	if q.r.Step > 0 && !q.r.End.Before(q.r.Start) {
+		last = q.r.Start.Add(q.r.End.Sub(q.r.Start) / q.r.Step * q.r.Step)
+	}
+	return hash(q.prom.unsafeURI, q.Endpoint(), q.expr, q.r.Start.Format(time.RFC3339), last.Format(time.RFC3339Nano), output.HumanizeDuration(q.r.Step))
 }
 
 func (q rangeQuery) CacheTTL() time.Duration {
